@@ -117,6 +117,7 @@ func c14(c *rig.Ctx) {
 	st := newStats()
 	n := c.Pick(300, 15000)
 	parallel(n, workers, func(i int) { c14Triple(c, st, i, n) })
+	parallel(c.Pick(10, 100), workers, func(i int) { c14Tail(c, st, i) })
 	st.flush(c)
 	c.Require(st.get("c14.collisions.resolved") > 0, "no collision was resolved")
 	c.Require(st.get("c14.collisions.conflict") > 0, "no collision ended in a conflict")
@@ -125,6 +126,8 @@ func c14(c *rig.Ctx) {
 	c.Require(st.get("c14.merges.right_chunk_adopted") > 0, "no merge adopted a whole chunk of the right side (range patch)")
 	c.Require(st.get("c14.edits.near_chunk_boundary") > 0, "no edit next to a chunk boundary")
 	c.Require(st.get("c14.merges.height_differs") > 0, "no triple with different tree heights")
+	c.Require(st.get("c14.tailmerge.right_truncated+last_leaf_not_first_child") > 0,
+		"no merge of a height>=3 right tree truncated at a non-boundary key with rows following in the result")
 }
 
 func (k *c14Case) side(si *shapeInfo) dict {
@@ -253,6 +256,33 @@ func c14Triple(c *rig.Ctx, st *stats, idx, total int) {
 	}
 	bulk := r.Intn(4) == 0
 	k.lm, k.rm = k.mk(k.left, bulk), k.mk(k.right, bulk)
+	k.run(siB, idx < 3)
+}
+
+// c14Tail: triples on >= 20 000-entry maps where one side is a tail truncation of the base (tailmerge.go).
+func c14Tail(c *rig.Ctx, st *stats, idx int) {
+	r := c.SubRand("c14/tail", idx)
+	c.Case(fmt.Sprintf("c14/tail%d", idx), nil)
+	tw := genTailWorld(r)
+	siB := tw.w.shape(tw.bm)
+	for v := 0; v < 4; v++ {
+		t := tw.triple(r, true)
+		k := &c14Case{c: c, st: st, w: tw.w, r: r, name: fmt.Sprintf("c14/tail%d/v%d(%s,mirrored=%v)", idx, v, t.mode, t.mirrored), salt: r.Intn(1 << 16),
+			base: tw.base, left: t.left, right: t.right, bm: tw.bm}
+		k.lm, k.rm = tw.mapFrom(t.left), tw.mapFrom(t.right)
+		th := k.rm.Height()
+		if t.mirrored {
+			th = k.lm.Height()
+		}
+		t.count(st, "c14", th)
+		k.run(siB, false)
+	}
+}
+
+// run compares one (base,left,right) triple with the key-wise model.
+func (k *c14Case) run(siB *shapeInfo, sample bool) {
+	c, st, w := k.c, k.st, k.w
+	n := w.kp.n()
 
 	// ---- the key-wise model
 	nv := len(w.vp.tups)
@@ -387,7 +417,7 @@ func c14Triple(c *rig.Ctx, st *stats, idx, total int) {
 	if !k.failed && !k.left.equal(k.base) && !k.right.equal(k.base) {
 		c.Distinct(fmt.Sprintf("%s|%s|%s|%s", w.kp.sch, k.bm.HashOf(), k.lm.HashOf(), k.rm.HashOf()))
 	}
-	if idx < 3 {
+	if sample {
 		c.Sample(map[string]any{"case": k.name, "world": w.desc, "collisions": len(wantColl), "merged": describeTree(w, merged)})
 	}
 }
